@@ -39,6 +39,13 @@ func applyStartFault(rp *plan.RouterPlan, cfg *router.Config, dir string) {
 		if len(cfg.Upstreams) > 0 {
 			cfg.Upstreams = append(cfg.Upstreams, cfg.Upstreams[clamp(len(cfg.Upstreams))])
 		}
+	case "dup_tag_quic":
+		// the repeated tag belongs to an upstream kind that opens its socket
+		// when it is constructed
+		if len(cfg.Upstreams) > 0 {
+			uc := router.UpstreamConfig{Tag: cfg.Upstreams[clamp(len(cfg.Upstreams))].Tag, Addr: []string{"quic://10.1.1.9", "h3://10.1.1.9/dns-query"}[f.Pos%2], Tls: router.TlsConfig{InsecureSkipVerify: true}}
+			cfg.Upstreams = append(cfg.Upstreams, uc)
+		}
 	case "dup_set_tag":
 		if len(cfg.DomainSets) > 0 {
 			cfg.DomainSets = append(cfg.DomainSets, cfg.DomainSets[clamp(len(cfg.DomainSets))])
